@@ -4,6 +4,7 @@ import (
 	"bytes"
 	"errors"
 	"fmt"
+	"math"
 	"strconv"
 	"strings"
 	"time"
@@ -195,6 +196,10 @@ func parseRectArea(ltyp string, vs []string) (nvs []string,
 	return
 }
 
+// finiteArg reports whether f is neither NaN nor an infinity (strconv.ParseFloat
+// accepts "nan" and "inf"; a sector with such a bearing never finishes).
+func finiteArg(f float64) bool { return !math.IsNaN(f) && !math.IsInf(f, 0) }
+
 func (s *Server) cmdSearchArgs(
 	fromFenceCmd bool, cmd string, vs []string, types map[string]bool,
 ) (lfs liveFenceSwitches, err error) {
@@ -365,6 +370,14 @@ func (s *Server) cmdSearchArgs(
 			return
 		}
 
+		if !finiteArg(b1) {
+			err = errInvalidArgument(sb1)
+			return
+		}
+		if !finiteArg(b2) {
+			err = errInvalidArgument(sb2)
+			return
+		}
 		if b1 == b2 {
 			err = fmt.Errorf("equal bearings (%s == %s), use CIRCLE instead", sb1, sb2)
 			return
